@@ -2,7 +2,7 @@
 from vpbt import graph_checks as G, sweep
 
 PID = "C01"
-RULE = 'Cases: closed CFGs (<=2 ordered distinct successors, one entry, all blocks reachable and reaching an exit) from (a) exhaustive lexicographic enumeration of all labelled graphs with n<=4 blocks and a seed-offset slice (quick) / all (thorough) of n=5, canonical BFS-numbered forms of n=6,7 with name-style relabellings (thorough), (b) Hypothesis strategy closed_cfgs (modes uniform/local/motif/structured/dense, construction+repair, name styles num/perm/bytecode/alpha), (c) CFG shapes of standard-library functions computed by an own dis-based builder, (d) CFG shapes that the source front end builds for generated functions, (e) 16 coverage-guided libFuzzer campaigns (atheris; bytes decoded into block count, name style, arity and targets per block, then the same deterministic repair; origin fuzz); every case is run through the stage prefixes closed, loop, branch (and restructure() for even sizes). Distinct = canonical hash of the named input graph. Non-trivial = the result contains a branching synthetic block or a region whose exiting block is itself a region.'
+RULE = 'Cases: closed CFGs (<=2 ordered distinct successors, one entry, all blocks reachable and reaching an exit) from (a) exhaustive lexicographic enumeration of all labelled graphs with n<=4 blocks and a seed-offset slice (quick) / all (thorough) of n=5, canonical BFS-numbered forms of n=6,7 with name-style relabellings (thorough), (b) Hypothesis strategy closed_cfgs (modes uniform/local/motif/structured/dense, construction+repair, name styles num/perm/bytecode/alpha), (c) CFG shapes of standard-library functions computed by an own dis-based builder, (d) CFG shapes that the source front end builds for generated functions, (e) 16 coverage-guided libFuzzer campaigns (atheris; bytes decoded into block count, name style, arity and targets per block, then the same deterministic repair; origin fuzz); every case is run through the stage prefixes closed, loop, branch (and restructure() for even sizes). Besides the stage prefixes closed / loop / branch every graph runs one of: restructure(), the level-wise drivers (top-level transformation + the stage driver of every sub-graph), write/read between the stages (dict, YAML) with a level-wise branch stage, restructure() after restructure_loop(). A quarter of the small graphs runs with debug logging switched on; graphs of >= 80 blocks run under the default recursion limit. Hypothesis modes: uniform, local, motif, structured (with do-while shapes), dense, compose (small closed CFGs substituted into one another), nests (loop nests in nested contexts, tight), wide (many headers / exits / tail headers); name styles num, perm, bytecode, alpha, gen, zpad, words; large regular graphs (257 / 300 blocks), deep nests, many-way loops (5-13 exits / entries), joined exits. Distinct = canonical hash of the named input graph. Non-trivial = the result contains a branching synthetic block or a region whose exiting block is itself a region.'
 ASSUME = []
 STAGES = None
 _eval = G.generic_eval(PID, G.oracle_c01, stages=STAGES)
